@@ -6,6 +6,7 @@ import (
 	"fmt"
 	"reflect"
 	"strings"
+	"sync"
 	"testing"
 
 	"github.com/Comcast/sheens/core"
@@ -42,6 +43,10 @@ type PermCase struct {
 	// the case data carries its JSON image, the real value is put in
 	// when the case runs.  "Previous value" means that very value.
 	Typed string `json:"typed,omitempty"`
+	// Parallel: the other states are stepped through the same compiled
+	// spec at the same time as the judged one (several machines of one
+	// specification on several goroutines), not before it
+	Parallel bool `json:"parallel,omitempty"`
 }
 
 const bigInt = int64(1700000000123456789)
@@ -105,6 +110,7 @@ func genPerm(t *rapid.T) PermCase {
 		c.Typed = rapid.SampledFrom([]string{"int64", "jsonNumber", "int64slice"}).Draw(t, "typedKind")
 		_, c.Bs["big!"] = typedValue(c.Typed)
 	}
+	c.Parallel = len(c.Warm) > 0 && rapid.Bool().Draw(t, "parallel")
 	c.InPlace = (c.Native || c.GuardNative) && rapid.Bool().Draw(t, "inplace")
 	c.Direct = c.Guard == nil && rapid.IntRange(0, 3).Draw(t, "direct") == 0
 	return c
@@ -167,6 +173,49 @@ func checkPerm(c PermCase) (v ev.Verdict) {
 	spec, err := a.Compiled()
 	if err != nil {
 		v.Failf("spec does not compile: %v", err)
+		return
+	}
+	if c.Parallel {
+		// the same compiled spec, all states at once, a few rounds
+		cases := []PermCase{c}
+		for _, w := range c.Warm {
+			wc := c
+			wc.Bs = w
+			wc.Typed = ""
+			if c.PatternVar {
+				if _, have := wc.Bs["x"]; !have {
+					wc.Bs = jsongen.CopyMap(w)
+					wc.Bs["x"] = 1.0
+				}
+				delete(wc.Bs, "?p!")
+			}
+			cases = append(cases, wc)
+		}
+		for round := 0; round < 5; round++ {
+			vs := make([]ev.Verdict, len(cases))
+			var wg sync.WaitGroup
+			start := make(chan struct{})
+			for i := range cases {
+				wg.Add(1)
+				go func(i int) {
+					defer wg.Done()
+					<-start
+					vs[i] = checkPermOn(cases[i], a, spec)
+				}(i)
+			}
+			close(start)
+			wg.Wait()
+			for i := range vs {
+				if vs[i].Err != "" {
+					v = vs[0]
+					v.Err = ""
+					v.Failf("state %d of %d stepped at the same time through one compiled spec (round %d): %s", i, len(cases), round, vs[i].Err)
+					return
+				}
+			}
+			v = vs[0]
+		}
+		v.Class("beside-other-states")
 		return
 	}
 	// the same compiled spec, one state after the other
